@@ -132,6 +132,7 @@ CHECKS["C03"] = {
     "level_note": "Transport model honours context cancellation and its own timeouts (10 s read, 60 s dial, 30 s put); liveness only as bounded virtual time; FullRT and dual clients are exercised in their own checks (C16, C15).",
     "parts": [
         {"part": "operations", "pkg": ROOT, "test": "TestVerif_C03_Operations", "quick": 5000, "thorough": 40000},
+        {"part": "fullrt", "pkg": "./fullrt/", "test": "TestVerif_C03_FullRT", "quick": 1500, "thorough": 20000},
     ],
 }
 
